@@ -60,3 +60,45 @@ func genC13(seed uint64) *Plan {
 }
 
 func init() { Generators["C13"] = genC13 }
+
+// genC41 draws a plan of any end-to-end scenario; the check runs it in the
+// simulation binary built with the race detector, with seeded yields and
+// run-queue randomisation always on. Callbacks take time (UserCode), and half
+// of the plans also carry the C13 closer, so Close races everything else.
+func genC41(seed uint64) *Plan {
+	r := rand.New(rand.NewSource(int64(seed ^ 0xc41c41)))
+	var p *Plan
+	switch x := r.Intn(100); {
+	case x < 20:
+		p = genProduce("C41", seed)
+	case x < 40:
+		p = genConsume("C41", seed)
+	case x < 55:
+		p = genC39(seed)
+	case x < 85:
+		p = genGroup("C41", seed)
+	case x < 93:
+		p = genC10(seed)
+	default:
+		p = genC11(seed)
+	}
+	p.Prop = "C41"
+	k := p.K
+	if k["yield"] == 0 {
+		k["yield"] = []int64{256, 1024, 4096}[r.Intn(3)]
+	}
+	if k["sched"] == 0 {
+		k["sched"] = []int64{16, 64, 128}[r.Intn(3)]
+	}
+	k["cb_yield_pct"] = []int64{0, 10, 40}[r.Intn(3)]
+	k["cb_sleep_pct"] = []int64{0, 5, 20}[r.Intn(3)]
+	if r.Intn(100) < 50 {
+		k["c13"] = 1
+		k["c13_client"] = int64(r.Intn(3))
+		k["c13_after_ms"] = []int64{50, 1000, 3000, 8000, 20000}[r.Intn(5)]
+		k["c13_net"] = []int64{0, 1, 1, 2, 3}[r.Intn(5)]
+	}
+	return p
+}
+
+func init() { Generators["C41"] = genC41 }
